@@ -133,3 +133,23 @@ Proof.
     unfold peeked_stream, possible_bom. cbn [decode_settings_of enc_config_of ds_strip_bom ec_bom_sniffing negb label_of decode_with].
     rewrite (for_bom_none_slice _ F), firstn_skipn. reflexivity.
 Qed.
+
+(* ---------- the UTF-8 decoder is independent of the fragmentation ---------- *)
+Lemma u8_feed_app : forall a b st,
+  u8_feed st (a ++ b) =
+  let (o1, st1) := u8_feed st a in
+  let (o2, st2) := u8_feed st1 b in (o1 ++ o2, st2).
+Proof.
+  induction a as [|x xs IH]; intros b st.
+  - cbn [app u8_feed]. destruct (u8_feed st b). reflexivity.
+  - cbn [app u8_feed]. destruct (u8_step st x) as [o1 st1]. rewrite IH.
+    destruct (u8_feed st1 xs) as [o2 st2]. destruct (u8_feed st2 b) as [o3 st3].
+    now rewrite app_assoc.
+Qed.
+
+Lemma utf8_chunk_independent_proof chunks : u8_stream u8_init chunks = utf8_to_utf8 (concat chunks).
+Proof.
+  unfold utf8_to_utf8. generalize u8_init. induction chunks as [|c cs IH]; intro st; [reflexivity|].
+  cbn [u8_stream concat]. rewrite u8_feed_app. destruct (u8_feed st c) as [o1 st1]. rewrite IH.
+  destruct (u8_feed st1 (concat cs)) as [o2 st2]. now rewrite app_assoc.
+Qed.
